@@ -172,6 +172,29 @@ func c20Request(kind, path string) *http.Request {
 		r.ProtoMajor, r.ProtoMinor, r.Proto = 2, 0, "HTTP/2.0"
 		r.Header.Set("Content-Type", "application/grpc+json")
 		r.Header.Set("Te", "trailers")
+	case "grpcmax", "webmax":
+		// one message of exactly the default receive limit (4 MiB): the largest request a bare Mux accepts
+		n := 4 << 20
+		m := &testpb.GetMessageRequestOne{Name: strings.Repeat("n", n-5)}
+		for proto.Size(m) < n {
+			m.Name += "n"
+		}
+		b, _ := proto.Marshal(m)
+		if len(b) != n {
+			panic("c20: cannot build a message of the limit's size")
+		}
+		r = mk("POST", grpcFrame(b))
+		if kind == "grpcmax" {
+			r.ProtoMajor, r.ProtoMinor, r.Proto = 2, 0, "HTTP/2.0"
+			r.Header.Set("Content-Type", "application/grpc")
+			r.Header.Set("Te", "trailers")
+		} else {
+			r.Header.Set("Content-Type", "application/grpc-web+proto")
+		}
+	case "postbig":
+		// a JSON body beyond the limit: refused, and refused the same way wherever the Mux is mounted
+		r = mk("POST", []byte(`{"text":"`+strings.Repeat("t", 4<<20)+`"}`))
+		r.Header.Set("Content-Type", "application/json")
 	case "web":
 		r = mk("POST", frame)
 		r.Header.Set("Content-Type", "application/grpc-web+proto")
@@ -489,6 +512,18 @@ func c20Gen(o *out, r *rng, tier string) {
 		}
 	}
 	emit("validation", true, nil, "get", "/x/one")
+	// 2b. requests at and beyond the receive limit, under a few mounts
+	for _, cfg := range [][]string{nil, {c20M("/")}, {c20M("/api")}, {c20M("/api/", "/twirp")}, {c20H("/metrics"), c20M("/pfx/")}} {
+		pre := ""
+		for _, c := range cfg {
+			if strings.HasPrefix(c, "m:") {
+				pre = strings.TrimSuffix(string(unhx(strings.Split(strings.TrimPrefix(c, "m:"), ",")[0])), "/")
+			}
+		}
+		emit("limit", false, cfg, "grpcmax", pre+"/larking.testpb.Messaging/GetMessageOne")
+		emit("limit", false, cfg, "webmax", pre+"/larking.testpb.Messaging/GetMessageOne")
+		emit("limit", false, cfg, "postbig", pre+"/v1/messages/msg_1/body")
+	}
 	// 3. random configurations
 	n := 2500
 	if tier == "thorough" {
